@@ -13,7 +13,7 @@ def uid_moves(script):
         if f[0] not in ('A', 'AC'): continue
         peer = int(f[1]); text = f[-1]
         cancel = 'METHOD:CANCEL' in text
-        for u in re.findall(r'UID:([^\\]+)\\n', text):
+        for u in re.findall(r'UID:([^\\]+)(?:\\r)?\\n', text):
             st = state.get(u)
             if cancel:
                 if st and st[1] == peer: state[u] = ('cancelled', peer)
